@@ -58,22 +58,35 @@ def gen_case(rng, hooks):
     ls = []
     closable = list(range(n))
     rng.shuffle(closable)
+    stops = False
     for _ in range(rng.randint(0, 3)):
-        ls.append("R")
+        if rng.random() < 0.12:
+            ls.append("S")                         # uv_stop() between two runs
+            stops = True
+        ls.append(rng.choice(["R", "R", "R", "N"]))
         if closable and rng.random() < 0.45:
             ls.append("C%d" % closable.pop())
     if rng.random() < 0.08:
         ls.append("C%d" % rng.randrange(n))       # possibly a second close of the same handle: skipped
-    if rng.random() < 0.9:
-        ls.append("D")
-    else:
-        ls += ["R"] * rng.randint(1, 3)
     beh = []
     for _ in range(6):
-        if rng.random() < 0.75:
+        if rng.random() < 0.7:
             beh.append([])
         else:
-            beh.append([rng.randrange(n) for _ in range(rng.randint(1, 2))])
+            ops = []
+            for _ in range(rng.randint(1, 2)):
+                if rng.random() < 0.35:
+                    ops.append("s")                # uv_stop() from the callback
+                    stops = True
+                else:
+                    ops.append(rng.randrange(n))
+            beh.append(ops)
+    if rng.random() < 0.9:
+        ls.append("D")
+        if stops:                                  # uv_run returns early after uv_stop(): run again
+            ls += [rng.choice(["D", "R", "N"]), "D", "D", "D"]
+    else:
+        ls += [rng.choice(["R", "N"]) for _ in range(rng.randint(1, 3))]
     return fmt_case(hooks, n, e0, ls, senders, beh, sig, gen_sched(rng, len(senders) + 1))
 
 
@@ -86,6 +99,9 @@ ENUM_CONFIGS = [
     (1, 0, ["R", "C0", "D"], [[0, 0]], [[]]),
     (2, 0, ["D"], [[0], [1]], [[1], [0]]),
     (1, EFD_MAX, ["D"], [[0], [0]], [[]]),
+    # the first callback calls uv_stop() while a send is outstanding on the other handle
+    (2, 0, ["D", "D"], [[0], [1]], [["s"]]),
+    (2, 0, ["D", "N", "R"], [[1, 0]], [["s"], ["s"]]),
 ]
 
 
@@ -241,6 +257,7 @@ def late_touch(case, line):
 
 
 MODEL_BIN = [None]
+PROBE_REPORTED = [False]
 
 
 
@@ -333,6 +350,14 @@ def run_fork_batch(chk, name, harness, model, cases):
         return 0, ["%s: harness/model printed %d/%d lines for %d cases" % (name, len(impl), len(mod), len(cases))]
     bad, nerr = [], 0
     for c, a, b in zip(cases, impl, mod):
+        if a.startswith("PROBE-FAIL"):
+            if not PROBE_REPORTED[0]:
+                PROBE_REPORTED[0] = True
+                chk.violation("%s: a refused/closed uv_poll_init() took the async wake-up descriptor out of the "
+                              "loop's epoll set: %s" % (name, a[11:]),
+                              {"kind": "monitor", "obligation": name, "case": c, "impl": a, "family": "fork"},
+                              found_input=True)
+            continue
         if a.startswith("ERR"):
             nerr += 1
             if nerr <= 2:
@@ -376,6 +401,13 @@ def run_batch(chk, name, harness, model, cases, shards=16):
     good_cases, good_impl = [], []
     nerr = 0
     for c, a in zip(cases, impl):
+        if a.startswith("PROBE-FAIL"):
+            if not PROBE_REPORTED[0]:
+                PROBE_REPORTED[0] = True
+                chk.violation("%s: a refused/closed uv_poll_init() took the async wake-up descriptor out of the "
+                              "loop's epoll set, no later uv_async_send() can wake the loop: %s" % (name, a[11:]),
+                              {"kind": "monitor", "obligation": name, "case": c, "impl": a}, found_input=True)
+            continue
         if a.startswith("ERR"):
             nerr += 1
             if nerr > 2:
